@@ -614,7 +614,20 @@ func (c *FnCtx) specApplyFunc(sc *specCtx, fn *types.Func, recv *Term, args []*T
 	return rs[0]
 }
 
+// applySpecFunc: the body of a spec function is evaluated in the scope of the package whose contract file defines it
+// (unqualified names of package-level variables, constants and types resolve there).
 func (c *FnCtx) applySpecFunc(sc *specCtx, f *SpecFunc, args []*Term, e *SExpr) *Term {
+	if f.Pkg != "" && c.pkg != nil && c.pkg.Path() != f.Pkg {
+		if p := c.eng.pkgs[f.Pkg]; p != nil && p.Types != nil {
+			save := c.pkg
+			c.pkg = p.Types
+			defer func() { c.pkg = save }()
+		}
+	}
+	return c.applySpecFunc1(sc, f, args, e)
+}
+
+func (c *FnCtx) applySpecFunc1(sc *specCtx, f *SpecFunc, args []*Term, e *SExpr) *Term {
 	if len(args) != len(f.Params) {
 		c.specErr(e, "spec function %s: %d arguments, want %d", f.Name, len(args), len(f.Params))
 	}
